@@ -5,7 +5,9 @@
      - the destination map,
      - the cache directory  <cache>/output/<name>.out : name -> corrupt | (input hash, exit code, return file present, ...),
      - an execution counter per name,
-   with the outcome of the n-th execution of an item given by an oracle (Section variable).
+   with the outcome of the n-th execution of an item given by an oracle (Section variable); for the correspondence runs
+   the oracle is computed from per-execution COMMAND scripts (run_cmds: several commands, named or not, a failure at any
+   position, the return file written before / by / after the failing command).
    The input hash is modelled by the job argument it was computed from: within one cache file name (= one source item)
    the JobInput is a function of the arguments only, and sha3-512 is taken to be collision free on the inputs used.
    No proofs in this file (Proofs/Jobmap.v). *)
@@ -71,6 +73,37 @@ Definition out_of (arg : string) (k : okind) (n : N) : output :=
 
 Definition mem (x : string) (l : list string) : bool := existsb (String.eqb x) l.
 
+(* ---- the COMMANDS of one execution.  A JobInput carries a list of commands (command, name or None); run_local runs
+   them in order and stops at the first one that fails; only a NAMED command's stdout/stderr are recorded.  What one
+   command of one execution does, as far as jobmap can tell: does it write the return file, and its exit code. *)
+Record cstep := mk_cs {
+  cs_named : bool;               (* named (recorded) or None: makes no difference to the outcome (run_cmds ignores it) *)
+  cs_write : bool;               (* writes the return file (before it exits) *)
+  cs_code : option positive }.   (* None: exit code 0; Some c: the command fails with exit code c *)
+
+(* the outcome of an execution from its commands: they run in order up to and INCLUDING the first failing one (named
+   or not, last or not), whose exit code is the recorded one; the return file exists iff an executed command wrote it;
+   all commands succeeded: exit code 0 iff the return file exists.  `file`: the return file exists already. *)
+Fixpoint run_cmds (file : bool) (l : list cstep) : okind :=
+  match l with
+  | [] => if file then OSucceed else OOmit
+  | c :: r =>
+      let file' := file || cs_write c in
+      match cs_code c with
+      | None => run_cmds file' r
+      | Some k => if file' then OFailFile k else OFail k
+      end
+  end.
+
+(* outcome oracle given by per-execution command scripts *)
+Definition cmd_outcome (script : string -> N -> list cstep) (nm : string) (n : N) : okind := run_cmds false (script nm n).
+
+(* the same commands as an oracle for the run_local model of Model/Job.v (C17): command type = cstep, the return file
+   is `rf`, a writing command stores `payload` in it *)
+Definition cs_exit (c : cstep) : Z := match cs_code c with Some k => Zpos k | None => 0%Z end.
+Definition step_exec (rf payload : string) (c : cstep) (e : env) (f : fs) : cmd_result :=
+  mk_res (cs_exit c) "" "" (if cs_write c then dset rf payload f else f) [].
+
 Section Jobmap.
   Variable outcome : string -> N -> okind.     (* what the n-th execution of item `name` does *)
 
@@ -131,9 +164,12 @@ Section Jobmap.
 End Jobmap.
 
 (* ------------------------------------------------------------------ correspondence *)
-(* scripted outcome streams: name -> outcomes of attempt 0, 1, ...; beyond the list: success *)
-Definition plan_outcome (plans : list (string * list okind)) (nm : string) (n : N) : okind :=
-  match dget nm plans with Some l => nth (N.to_nat n) l OSucceed | None => OSucceed end.
+(* scripted outcome streams: name -> the command scripts of attempt 0, 1, ...; beyond the list: success *)
+Definition plan_outcome (plans : list (string * list (list cstep))) (nm : string) (n : N) : okind :=
+  match dget nm plans with
+  | Some l => match nth_error l (N.to_nat n) with Some cmds => run_cmds false cmds | None => OSucceed end
+  | None => OSucceed
+  end.
 
 Definition out_eqb (a b : output) : bool :=
   String.eqb (o_arg a) (o_arg b) && Z.eqb (o_code a) (o_code b) && Bool.eqb (o_file a) (o_file b) && N.eqb (o_attempt a) (o_attempt b).
@@ -160,7 +196,7 @@ Definition jobs_eqb (st : jstate) (o : jobs) : bool :=
   && count_sub (js_count st) (jo_count o) && count_sub (jo_count o) (js_count st).
 
 Record jcase := mk_jcase {
-  jc_plans : list (string * list okind);
+  jc_plans : list (string * list (list cstep));
   jc_init : jstate;
   jc_events : list jevent;
   jc_obs : list jobs }.
